@@ -5,7 +5,8 @@ import refmon
 import refrun
 from machgen import Session
 from vcheck import Suite
-from vlib import Rng
+import apigen
+from vlib import Case, Rng
 
 ID = "C09"
 PROPS_MODULE = "AmqModel.Props.C09"
@@ -48,6 +49,73 @@ def gen(tier, seed):
     return cases
 
 
+def api_monitor(case, il, sl):
+    """After the server closed channel n (its close is queued for the handle, the slot is gone), the
+    next call on n - whatever it is, Channel::close included - fails with ServerClosedChannel carrying
+    n, the code and the text; a call on another channel is unaffected."""
+    il2, _ = apigen.canon(il, [])
+    al = mg.align(case.ops, il2) if hasattr(mg, "align") else None
+    want = None
+    victim = None
+    checked = False
+    k = 0
+    lines = [l for l in il2 if not l.startswith("#")]
+    # walk ops and their output groups: every op prints >= 1 line starting with ok/ret/bad-op, followed by sent/allocreq lines
+    groups = []
+    cur = None
+    for l in lines:
+        if l.startswith(("ok", "ret ", "bad-op")) or cur is None:
+            cur = [l]; groups.append(cur)
+        else:
+            cur.append(l)
+    ops = [o for o in case.ops if not o.startswith("init")]
+    # `init` prints one ok too
+    if len(groups) != len(case.ops):
+        return None      # cannot align (a crash is reported by the exact diff / crash monitor)
+    for o, g in zip(case.ops, groups):
+        t = o.split()
+        if t[0] == "rep" and t[2] == "err" and t[3] == "ServerClosedChannel":
+            victim = t[1]; want = "ret err ServerClosedChannel %s" % " ".join(t[4:])
+        elif victim and not checked and ((t[0] in ("call", "close-chan") and t[1] == victim) or (t[0] == "deliv" and t[3] == victim) or t[0] == "cons"):
+            checked = True
+            if g[0] == "ret PANIC":
+                continue     # an assertion of the API (foreign delivery) - C12
+            if g[0] != want:
+                return ("the server closed channel %s; the next call on it (`%s`) returned %r instead of %r" % (victim, " ".join(t[:3]), g[0], want), "c09-api-next-call")
+        elif victim and t[0] == "call" and t[1] != victim and g[0].startswith("ret err ServerClosedChannel"):
+            return ("the server closed channel %s; a call on channel %s failed with %r" % (victim, t[1], g[0]), "c09-api-other-channel")
+    return None
+
+
+def gen_api(tier, seed):
+    rng = Rng(seed + 909)
+    n = 300 if tier == "quick" else 6000
+    cases = []
+    for i in range(n):
+        g = apigen.ApiGen(rng, 4096)
+        a, b = rng.sample(range(1, 9), 2)
+        g.open(a); g.open(b)
+        if rng.random() < 0.4:
+            g.random_call(a)
+        code = rng.choice([403, 404, 406])
+        text = rng.choice(["NOT_FOUND - no exchange 'x' in vhost '/'", "", "PRECONDITION_FAILED"])
+        g.op("rep %d err ServerClosedChannel %d %d %s" % (a, a, code, apigen.hx(text) or "-"))
+        g.op("dropslot %d" % a)
+        r = rng.random()
+        if r < 0.35:
+            g.op("close-chan %d" % a)
+            g.chans.remove(a)
+        else:
+            g.dead = True        # no reply is pre-loaded behind the error
+            g.random_call(a)
+            g.dead = False
+        g.random_call(b)
+        cases.append(Case("s%d" % i, g.ops, {"keep_prefix": 3}))
+    return cases
+
+
 def suites(tier, seed):
-    return [Suite("sessions", "machine", lambda: gen(tier, seed), monitor=monitor, nontrivial=nontrivial, canon=mg.canon_nondet, candidate_ok=mg.candidate_ok,
+    return [Suite("server-close-at-api", "api", lambda: gen_api(tier, seed), monitor=api_monitor, nontrivial=lambda c, il: True, canon=apigen.canon,
+                  rule="public API over the real queue ends: two channels; the server's Channel.Close(n, code, text) is queued for n's handle and n's slot is gone; the next operation on n is Channel::close (35%) or a random one of the 36 API calls; then a call on the other channel. Exact diff against the Lean Api model + monitor from the property text"),
+            Suite("sessions", "machine", lambda: gen(tier, seed), monitor=monitor, nontrivial=nontrivial, canon=mg.canon_nondet, candidate_ok=mg.candidate_ok,
                   rule="random sessions biased to server-initiated channel closes hitting channels that are idle / have a call in flight / content half received / consumers attached / a client close in flight, while 1-5 other channels keep working; ids reopened afterwards")]
